@@ -29,8 +29,14 @@ def rand_f32(rng):
     return b
 
 
+# where a narrowing cast (u8, i8, u16, i16, 20 / 24 bits) or a table size would wrap: both signs
+THRESH = [127, 128, 255, 256, 257, 32767, 32768, 65534, 65536, 65537, 131072, 1 << 20, (1 << 20) + 1, (1 << 24) - 1, (1 << 24) + 2, 1 << 30, (1 << 31) - 256]
+
+
 def rand_i32(rng):
     r = rng.random()
+    if r < 0.06:
+        return rng.choice(THRESH) * rng.choice([1, 1, -1])
     if r < 0.4:
         return rng.choice(I32)
     if r < 0.8:
